@@ -79,12 +79,14 @@ let parse_msgs s =
   List.map (fun m -> match split ';' m with
       | [ serial; typ; obj; sender; res; body; nr ] ->
           let call = typ = "c" || typ = "k" in
-          let dh = { dh_interface = None; dh_member = (if call then Some (bytes_of_string "M") else None);
+          let dh = { dh_interface = (if typ = "s" then Some (bytes_of_string "verif.I") else None);
+                     dh_member = (if call || typ = "s" then Some (bytes_of_string "M") else None);
                      dh_object = opt_of_hex obj; dh_destination = None;
                      dh_serial = Some (n_of_int (int_of_string serial)); dh_sender = opt_of_hex sender;
-                     dh_signature = None; dh_error_name = None;
-                     dh_response_serial = (if typ = "c" then None else Some (n_of_int 999)); dh_num_fds = None } in
-          ({ m_typ = (if call then MCall else MReply); m_dh = dh; m_flags = N0; m_body = [] },
+                     dh_signature = None; dh_error_name = (if typ = "e" then Some (bytes_of_string "verif.Err") else None);
+                     dh_response_serial = (if typ = "c" || typ = "s" then None else Some (n_of_int 999)); dh_num_fds = None } in
+          ({ m_typ = (if call then MCall else if typ = "s" then MSignal else if typ = "e" then MError else MReply);
+             m_dh = dh; m_flags = N0; m_body = [] },
            { res = res.[0]; body = list_of_hex body; newroutes = parse_routes nr })
       | _ -> failwith "msg") (split '|' s)
 
